@@ -81,6 +81,8 @@ type swCase struct {
 var nameMaps = map[string]map[string]string{
 	"plain": {},
 	"nasty": {"b": "-d", "f": "x y.txt", "g": "b.c"},
+	// names that begin / end with a blank: significant in a .gitignore line (a trailing one is written escaped)
+	"blank": {"b": "d ", "f": " f.txt", "g": "g"},
 }
 
 func mapPath(p string, nm map[string]string) string {
@@ -327,6 +329,9 @@ func runScanWalk(c *swCase, mode, nmName, tmp string, faultKind int) (obs swObs)
 			n := a.N
 			if v, ok := nm[n]; ok {
 				n = v
+			}
+			if strings.HasSuffix(n, " ") {
+				n = strings.TrimSuffix(n, " ") + "\\ " // git: trailing spaces count only when quoted with a backslash
 			}
 			switch a.T {
 			case "name":
